@@ -124,7 +124,13 @@ class C08(Harness):
         return 170 if tier == 'quick' else 1200
 
     def units(self, tier):
-        return [{'schema': s, 'files': f} for s, f in _layouts(tier)]
+        us = [{'schema': s, 'files': f} for s, f in _layouts(tier)]
+        # the same single-file layouts loaded from a file object WITHOUT a URL: line numbers must be
+        # just as right; there is no URL to report
+        for s, f in _layouts(tier):
+            if len(f) == 1:
+                us.append({'schema': s, 'files': f, 'nourl': True})
+        return us
 
     # holes are named f<file>l<line>p<part>
     def inputs(self, eng, unit):
@@ -165,7 +171,8 @@ class C08(Harness):
         files = self.files(unit, inp)
         store = {P.BASE + n: ls for n, ls in files}
         with common.env_scope(common.all_concrete(inp), {}), P.mem_resources(store):
-            r = P.run_load(XML[unit['schema']], files[0][1], url=P.BASE + files[0][0])
+            r = P.run_load(XML[unit['schema']], files[0][1],
+                           url=None if unit.get('nourl') else P.BASE + files[0][0])
         if r[0] == 'ok':
             return ('ok',)
         if r[0] == 'crash':
@@ -230,7 +237,10 @@ class C08(Harness):
         fam = exp[1]
         if fam == 'unplaced':
             return z3.BoolVal(True)
-        pos = z3.And(deep_eq(real[2], exp[2]), deep_eq(real[3], exp[3]))
+        if unit.get('nourl'):
+            pos = z3.And(deep_eq(real[2], exp[2]), z3.BoolVal(real[3] is None))
+        else:
+            pos = z3.And(deep_eq(real[2], exp[2]), deep_eq(real[3], exp[3]))
         if fam == 'conversion':
             return z3.And(pos, z3.BoolVal(real[1] == 'conversion'), deep_eq(real[4], exp[4]))
         if fam == 'syntax':
